@@ -1287,6 +1287,9 @@ lyd_change_node_value(struct lyd_node_term *term, struct lyd_value *val, ly_bool
             rc = ((struct lysc_node_leaf *)term->schema)->type->plugin->duplicate(LYD_CTX(term), val, &term->value);
         }
 
+        /* update the hash, the node is inserted into the parent hash table when reinserting */
+        lyd_hash(target);
+
         /* reinserting */
         lyd_insert_node(NULL, &first, target, LYD_INSERT_NODE_DEFAULT);
     } else {
@@ -1300,10 +1303,10 @@ lyd_change_node_value(struct lyd_node_term *term, struct lyd_value *val, ly_bool
         } else {
             rc = ((struct lysc_node_leaf *)term->schema)->type->plugin->duplicate(LYD_CTX(term), val, &term->value);
         }
-    }
 
-    lyd_hash(target);
-    rc = lyd_insert_hash(target);
+        lyd_hash(target);
+        rc = lyd_insert_hash(target);
+    }
 
     return rc;
 }
